@@ -540,11 +540,17 @@ def check_C08(res, tier, seed):
     # 144 option combinations are visited index by index; quick: 2 task sets each, thorough: 20
     tv_part(res, ["cumulative"], n(tier, 288, 2880), seed, tier, "cumulative",
             min_events={"IterSolution": 200}, adopt=adopt_for("C08"))
+    # 4-5 tasks with bridged gaps / switches re-deriving the same overload (2 x 144 combinations)
+    tv_part(res, ["cumulative2"], n(tier, 288, 2880), seed, tier, "cumulative2",
+            min_events={"IterSolution": 200}, adopt=adopt_for("C08"))
 
 
 def check_C09(res, tier, seed):
     # 20 kinds x 4 wrappings (implied_by, reify, negation, plain), index-driven; quick: 4 rounds
     tv_part(res, ["reif"], n(tier, 320, 3200), seed, tier, "reif", min_events={"IterSolution": 200},
+            adopt=adopt_for("C09"))
+    # several reified constraints over one literal (interaction of the wrapped propagators)
+    tv_part(res, ["reif2"], n(tier, 250, 8000), seed, tier, "reif2", min_events={"IterSolution": 200},
             adopt=adopt_for("C09"))
 
 
@@ -660,12 +666,25 @@ def check_C19(res, tier, seed):
                        "equal the text and the real ProofReader must return the steps")
 
 
+# C10: in a history of calls on one solver every wrong answer is "answering for a stale model"
+# (answers explained by the clauses the library added itself are reported by the specification as
+# C10.StaleInternalClauses instead, see F2)
+C10_ADOPT = {k: "C10.LaterAnswerWrong" for k in (
+    "C01.SolutionHolds", "C01.Total", "C02.UnsatRight", "C02.PostErrRight", "C03.Complete", "C03.EndKind",
+    "C03.IsSolution", "C03.NoRepeat", "C04.CallbackIsSolution", "C04.OptimalIsBest", "C04.OptimalIsSolution",
+    "C04.UnsatRight", "C05.CoreImplied", "C05.PlainUnsatRight", "C05.SatIsSolution", "C05.SatRespectsAssumptions",
+    "C05.UnsatUARight", "C12.Encloses", "C12.LitValue", "C12.MatchesDom", "C12.WithinDeclared")}
+C10_ADOPT["C02.NoTermination"] = "C10.NoHang"
+
+
 def check_C10(res, tier, seed):
-    tv_part(res, ["history"], n(tier, 500, 5000), seed, tier, "history")
+    tv_part(res, ["history"], n(tier, 500, 5000), seed, tier, "history", adopt=C10_ADOPT)
 
 
 def check_C12(res, tier, seed):
     tv_part(res, ["solve", "history"], n(tier, 300, 3000), seed + 7, tier, "bounds", min_events={"Bounds": 200})
+    # posting only (no search): every kind, wide maximum/minimum/element, unary side clauses
+    tv_part(res, ["rootbounds"], n(tier, 950, 9500), seed + 7, tier, "rootbounds", min_events={"Bounds": 2000})
 
 
 EXH_KIND_TOTAL = 16 * 2 * 48 * 48
